@@ -738,6 +738,16 @@ func c19RunFloat(job *c19Job, res *c19Result, g *funcGen.FunctionGenerator[float
 					if it := t.implicitText(e); it != min {
 						res.Hist["implicit-multiplication renderings"]++
 						fc.check(fam.Name, e, fam.Vars, fam.Grid, e.vec.v, e.vec.ok, it, "imp")
+						// the same with other white space where the juxtaposition needs a blank
+						if strings.Contains(it, " ") {
+							for _, ws := range []string{"\n", "\t", "\r\n", "\n\n"} {
+								c19Blank = ws
+								iw := t.implicitText(e)
+								c19Blank = " "
+								res.Hist["implicit-multiplication renderings (line feed / tab / CR LF)"]++
+								fc.check(fam.Name, e, fam.Vars, fam.Grid, e.vec.v, e.vec.ok, iw, "impws")
+							}
+						}
 					}
 				}
 				if len(res.Samples) < 3 && top && cnt%5000 == 11 {
